@@ -81,6 +81,17 @@ CHECKS = {
         'restores mutability. Exploration with an exhaustive finite sub-domain.',
         'Innermost scope wins, None defers to the object flag; under disabled accessors only accessor assignment/deletion and rebind are specified; values are built outside the scopes.',
         'DESIGN.md section 3 C08'),
+    'C05': (
+        'round-trip PBT over generated serializable values (4 routes) + model-based stateful PBT of file-system histories',
+        'Generated values (typed/untyped trees, tuples, int keys, special floats, control/unicode text, classes, functions, lambdas, '
+        'value specs, DNASpecs, DNAs, hyper placeholders, partial objects; format-reserved markers as a separately labelled class) are '
+        'round-tripped through to_json/from_json, to_json_str/from_json_str, pickle and deepcopy and compared for NaN-aware equality, '
+        'type, hash, schema-backed behaviour and tree well-formedness. Generated histories of save/overwrite/load, jsonl and raw line '
+        'sequences (write/append/read), writefile/readfile, rm, mkdirs, listdir, exists over a small path set on the in-memory '
+        '(incl. names starting with letters of the prefix) and the standard file system are compared with a model dict after every '
+        'step and at the end. Exploration.',
+        'Values not serializable by design (local functions, opaque leaves) are not generated; NaN equals NaN in the comparison.',
+        'DESIGN.md section 3 C05'),
 }
 
 NOT_BUILT = 'check not built yet in this round (planned; see DESIGN.md section 3)'
